@@ -136,12 +136,74 @@ theorem boundsAt_static (s : SLayout) (off : Option Int) (runtimeShape : List Na
     boundsAt (ofStatic s off).ts runtimeShape = .ok (s.map (·.map (·.bound))) :=
   Tsl.boundsAt_static s runtimeShape hlen hne
 
-/-- Full statement for the step ops (`get_step_ops`): on a static layout they evaluate to the literal steps
-times the element size. NOT proved in this round (time): covered by the correspondence check and by the
-oracle (`static step … evaluates to …`) only. -/
-def stepsAt_static_statement : Prop :=
-  ∀ (s : SLayout) (off : Option Int) (el : Nat), s ≠ [] → (∀ t ∈ s, t ≠ []) →
-    stepsAt (ofStatic s off) (s.map (·.map (·.bound))) el = .ok (s.map (·.map (·.step * el)))
+/-- **Static steps are the literals × element size.** The step ops of a static layout evaluate to the layout's
+steps times the element size (`in_bytes`), whatever the largest step / the seed of the dynamic chain is. -/
+theorem stepsAt_static (s : SLayout) (off : Option Int) (el : Nat) (hs : s ≠ []) (hne : ∀ t ∈ s, t ≠ []) :
+    stepsAt (ofStatic s off) (s.map (·.map (·.bound))) el = .ok (s.map (·.map (·.step * el))) :=
+  stepsAt_ofStatic s off el hs hne
+
+/-- **Steps in bytes = element size × steps in elements**, for EVERY layout (static or dynamic entries
+anywhere), every list of resolved bounds and every element size — errors included. -/
+theorem stepsAt_bytes (l : Layout) (bounds : List (List Nat)) (el : Nat) :
+    stepsAt l bounds el = (stepsAt l bounds 1).map (·.map (·.map (· * el))) :=
+  stepsAt_scale l bounds el
+
+/-- **Dynamic bounds.** A layout whose every dimension is `[?, inner…]` with positive static inner bounds
+resolves, at any runtime shape, to `extent / Π inner` for the outermost tile and the literals inside; and
+(clause `tileDividesShape`) the resolved bounds of a dimension multiply to its runtime extent. -/
+theorem boundsAt_dynamic_partial (ds : List DynDim) (runtimeShape : List Nat)
+    (hlen : runtimeShape.length = ds.length) (hpos : ∀ d ∈ ds, ∀ x ∈ d.2, 0 < x.bound) :
+    boundsAt (ds.map DynDim.toTStride) runtimeShape = .ok (List.zipWith DynDim.boundsFor ds runtimeShape) ∧
+      ∀ (d : DynDim) (n : Nat), (tileDividesShape : prodB d.2 ∣ n) → prodL (d.boundsFor n) = n := by
+  refine ⟨boundsAt_dynamic ds runtimeShape hlen hpos, ?_⟩
+  intro d n hdvd
+  simp only [DynDim.boundsFor, prodL, prodL_bounds]
+  exact Nat.div_mul_cancel hdvd
+
+/-- the clause `tileDividesShape` cannot be dropped: `arith.divui` floors (extent 10, tile 4: 2·4 = 8) -/
+theorem boundsAt_dynamic_floor_fails :
+    ¬ ∀ (d : DynDim) (n : Nat), prodL (d.boundsFor n) = n := by
+  intro h
+  exact absurd (h (none, [⟨1, 4⟩]) 10) (by decide +kernel)
+
+/-- **Resolved steps form the contiguous chain.** Whenever the step ops are produced (`stepsAt … = .ok steps`):
+`v` is the largest static step of the layout (0 if there is none) and sits at flat position `p`; read right to
+left (dimensions reversed, tiles from the innermost outwards) every static tile gets `step · el`, and every
+dynamic tile gets `seed · Π (extents of the dynamic tiles visited before it)` with
+`seed = extent(p) · v · el`. No bound on rank, depth, extents. -/
+theorem stepsAt_chain (l : Layout) (bounds : List (List Nat)) (el : Nat) (steps : List (List Nat))
+    (h : stepsAt l bounds el = .ok steps) :
+    ∃ p v, maxStep l.strides 0 (l.strides.length - 1) 0 = (p, v) ∧
+      (∀ x ∈ l.strides, ∀ st, x.step = some st → st ≤ v) ∧
+      (v = 0 ∨ (l.strides[p]?).bind (·.step) = some v) ∧
+      ∀ (i : Nat) (s : Stride) (b : Nat), ((l.strides.zip bounds.flatten).reverse)[i]? = some (s, b) →
+        steps.flatten.reverse[i]? = some (match s.step with
+          | some st => st * el
+          | none => bounds.flatten.getD p 0 * (v * el) *
+              dynProd (((l.strides.zip bounds.flatten).reverse).take i)) := by
+  obtain ⟨hlen, hsteps⟩ := stepsAt_ok l bounds el steps h
+  rcases hm : maxStep l.strides 0 (l.strides.length - 1) 0 with ⟨p, v⟩
+  refine ⟨p, v, rfl, ?_, ?_, ?_⟩
+  · have := (maxStep_ge l.strides 0 (l.strides.length - 1) 0).2
+    rw [hm] at this
+    exact this
+  · rcases maxStep_attained l.strides 0 (l.strides.length - 1) 0 with h0 | ⟨j, h1, h2, _⟩
+    · left; rw [hm] at h0; exact (Prod.mk.inj h0).2
+    · right; rw [hm] at h1 h2; simp only [Nat.zero_add] at h1; rw [h1]; exact h2
+  · intro i s b hi
+    have hflat : steps.flatten = (stepsRev el (l.strides.zip bounds.flatten).reverse (seedOf l bounds el)).reverse := by
+      rw [hsteps, flatten_regroup]
+      rw [List.length_reverse, length_stepsRev, List.length_reverse, List.length_zip, ← hlen, Nat.min_self,
+        length_flatten_strides]
+    rw [hflat, List.reverse_reverse, stepsRev_getElem el _ _ i s b hi]
+    simp only [seedOf, hm]
+    cases s.step <;> rfl
+
+/-- C10-N1 (open finding, clause "the layout has a static step"): without any static step the seed is 0 and
+every step of `[?] -> (?), [?] -> (?)` at shape 12×12 resolves to 0. -/
+theorem stepsAt_allDynamic_fails :
+    stepsAt ⟨[[⟨none, none⟩], [⟨none, none⟩]], some 0⟩ [[12], [12]] 4 = .ok [[0], [0]] := by
+  decide +kernel
 
 /-- what the property's quantifier needs for the textual form: no step or bound is the literal `0` (the
 printer writes `?` for it: `str(x) if x else "?"`), and a rank-0 layout has offset 0 (otherwise the printed
@@ -199,6 +261,8 @@ example : Aligned [[⟨128, 2⟩, ⟨8, 8⟩], [⟨64, 2⟩, ⟨1, 8⟩]] [8, 0]
   refine ⟨by decide, ⟨1, by decide⟩, by decide, ⟨0, by decide⟩, trivial⟩
 example : fromStrides [some 24] [[some 2, some 6, some 4]] (some 0) = ofStatic [[⟨576, 2⟩, ⟨96, 6⟩, ⟨24, 4⟩]] := by
   decide +kernel
+example : stepsAt ⟨[[⟨none, none⟩, ⟨some 4, some 4⟩], [⟨none, none⟩, ⟨some 1, some 4⟩]], some 0⟩ [[3, 4], [5, 4]] 4
+    = .ok [[320, 16], [64, 4]] := by decide +kernel
 example : Printable ⟨[[⟨none, none⟩, ⟨some 4, some 4⟩], [⟨some 16, some 2⟩, ⟨some 1, some 1⟩]], some (-5)⟩ := by
   decide
 example : subviewPtr true 1 4096 [[⟨some 128, some 2⟩, ⟨some 8, some 8⟩], [⟨some 64, some 2⟩, ⟨some 1, some 8⟩]]
